@@ -330,12 +330,24 @@ def run_props(prop, tier, seed, workdir, res):
     for c in _argviol_cases():
         for fn in NARROW_BUF + WIDE_BUF:
             jobs.append((fn, c))
+    if prop == "C02":
+        # formats that end inside a directive ("50%", "%5", "%-", "%.3", "%l", "%1$", "%*"): the format's terminator is the last element in
+        # front of an inaccessible page (hpf), a scanner or parser that steps over it faults.  What such a format produces is not judged
+        # here: only the memory-safety verdicts of these calls are taken (they are made for C02 alone).
+        tails = [[37], [37, 53], [37, 45], [37, 46, 51], [37, 108], [37, 104, 104], [37, 49, 36], [37, 42], [37, 32], [37, 35, 48], [37, 73], [37, 109], [37, 91], [37, 91, 94]]
+        for i, tl in enumerate(tails):
+            for pre in ([], [97], [53, 48]):
+                c = dict(fmt=pre + tl, at=[], av=[], loc=0, dmax=16, cv=0, ln="", p=-1, inp=[97, 98])
+                for fn in NARROW_BUF + WIDE_BUF + ["fprintf_s", "printf_s", "fwprintf_s", "sscanf_s", "vsscanf_s", "fscanf_s", "swscanf_s", "vswscanf_s"]:
+                    jobs.append((fn, c))
     uv = unterminated_variants(cases)
     for i, c in enumerate(uv):
         jobs.append((NARROW_BUF[i % len(NARROW_BUF)], c))
         jobs.append((["fprintf_s", "printf_s", "vfprintf_s", "vprintf_s"][i % 4], c))
     res.coverage["printf_unterminated_string_arguments"] = len(uv)
     n, bad, st = execute_and_judge(jobs, workdir)
+    if prop == "C02":
+        bad = [b for b in bad if b["case"].get("cv") != 0 or b["event"].get("fault") == "r"]
     _violations(prop, bad, res)
     res.coverage["states"] = res.coverage.get("states", 0) + r["distinct"]
     res.coverage["transitions"] = res.coverage.get("transitions", 0) + r["states"]
